@@ -132,9 +132,9 @@ PROPS = {
     ),
     'C16': dict(
         technique='Kani/CBMC bounded model checking of base() against a last-slash oracle and of suffix() against a normalised-prefix oracle (value symbolic x listed prefixes)',
-        level_text='base(): for every valid reference within the byte bound (both families) the result is exactly the sub-slice up to and including the last slash of the path (or up to the path start), valid for the same kind and without query/fragment (quick tier). suffix(): harnesses exist for (value <= 4-5 bytes) x (listed prefixes) - Some exactly when both are absolute or both relative and the prefix normalised segments lead the value ones (decoded comparison), the result the remaining segments; Uri::suffix needing equal scheme and authority and returning the value own query/fragment - but each costs more than 30 min of CBMC (two SmallVec normalisations), so they are thorough-tier stretch harnesses whose completion is reported in the evidence; in the quick tier suffix() is NOT decided.',
+        level_text='base(): for every valid reference within the byte bound (both families) the result is exactly the sub-slice up to and including the last slash of the path (or up to the path start), valid for the same kind and without query/fragment (quick tier). suffix(): harnesses exist for (value <= 4-5 bytes) x (listed prefixes) - Some exactly when both are absolute or both relative and the prefix normalised segments lead the value ones (decoded comparison), the result the remaining segments; Uri::suffix needing equal scheme and authority and returning the value own query/fragment - but each costs more than 30 min of CBMC (two SmallVec normalisations), so they are thorough-tier stretch harnesses whose completion is reported in the evidence; during development none of them completed within its 60-90 min cap (symbolic execution of the PathBuf::push loop alone exceeded 45 min), so suffix() is in effect NOT decided by this machinery in either tier - the claim for this property is the base() half.',
         level_note=BMC_NOTE,
-        outside='base() beyond 9-10 bytes; suffix() entirely in the quick tier, and beyond (value <= 5) x (listed prefixes) in the thorough tier',
+        outside='base() beyond 9-10 bytes; suffix() entirely in the quick tier and, unless a stretch harness completes (see coverage.not_completed), in the thorough tier too',
         stubs=[TABLE_STUB, 'Vec::resize -> in-capacity version', 'SmallVec::push/try_grow as C09'],
         assumptions=['prefix representatives: "", "/", "a", "/a", "a/b", "/a/..", "%61", ".."'],
     ),
